@@ -324,6 +324,33 @@ HEX_GOOD = [('90 40 40', [0x90, 0x40, 0x40]), ('f0f7', [0xF0, 0xF7]),
             ('E0\t00\t40', [0xE0, 0, 0x40]), ('F2007F', [0xF2, 0, 0x7F])]
 
 
+def trailing_byte_cases(ctx):
+    """A well-formed message followed by ONE more byte is not one message: every type x every kind of
+    byte that text-oriented code likes to ignore (newline, CR, NUL, space, a second F7, FF) x
+    bytes / bytearray / list / tuple, through from_bytes and from_hex."""
+    n = 0
+    samples = [('sysex', {'data': ()}), ('sysex', {'data': (1, 2, 3)}), ('note_on', {'channel': 1, 'note': 2, 'velocity': 3}),
+               ('program_change', {'channel': 0, 'program': 10}), ('clock', {}), ('tune_request', {}), ('songpos', {'pos': 10}),
+               ('quarter_frame', {'frame_type': 1, 'frame_value': 10}), ('pitchwheel', {'channel': 2, 'pitch': 10})]
+    for t, a in samples:
+        enc = midi1.encode(t, a)
+        for extra in (0x0A, 0x0D, 0x00, 0x20, 0x09, 0xF7, 0xFF, 0x0B, 0x0C, 0x1C, 0x85):
+            for cont in (bytes, bytearray, list, tuple):
+                check_seq(ctx, enc + [extra], cont)
+                n += 1
+            case = {'kind': 'trailing-byte', 'type': t, 'extra': extra}
+            for text in (' '.join(f'{b:02X}' for b in enc + [extra]), ''.join(f'{b:02x}' for b in enc + [extra])):
+                try:
+                    m = Message.from_hex(text)
+                    ctx.check('from_hex rejects', False, 'from_hex-accepted-trailing-byte', case, repr(m))
+                except ValueError:
+                    ctx.count('from_hex rejects')
+                except Exception as exc:
+                    ctx.check('exception class', False, f'from_hex-trailing-{type(exc).__name__}', case, f'{type(exc).__name__}: {exc}')
+                n += 1
+    return n
+
+
 def hex_cases(ctx):
     n = 0
     for text in HEX_BAD:
@@ -441,7 +468,7 @@ def run(ctx):
         ctx.extra('array_and_long_sysex_cases', h)
         n += h
     if ctx.shard == 2 % ctx.nshards:
-        h = hex_cases(ctx)
+        h = hex_cases(ctx) + trailing_byte_cases(ctx)
         ctx.nontrivial(None, h)
         n += h
     ctx.count('cases', n)
@@ -471,3 +498,5 @@ def replay(ctx, case):
         history_cases(ctx)
     elif case['kind'] in ('hex', 'hex-sep'):
         hex_cases(ctx)
+    elif case['kind'] == 'trailing-byte':
+        trailing_byte_cases(ctx)
